@@ -58,11 +58,21 @@ def strip_not(n):
     return n, neg
 
 
+def same_type(a, b):
+    norm = lambda t: (t or "?").replace("const ", "").replace(" &", "").strip()
+    return norm(a) == norm(b)
+
+
 def ref_decl(n):
     """declaration id if the node is a plain reference to a local/param/binding"""
     n = skip(n)
-    while n is not None and n["k"] == "cast" and not n.get("ex"):
-        n = skip(n["c"][0])
+    while n is not None:
+        if n["k"] == "cast" and not n.get("ex"):
+            n = skip(n["c"][0])
+        elif n["k"] == "construct" and len(n.get("c", ())) == 1 and same_type(n.get("t"), skip(n["c"][0]).get("t")):
+            n = skip(n["c"][0])     # copy through a (templated) same-type constructor
+        else:
+            break
     if n is not None and n["k"] == "ref":
         return n["d"]
     return None
